@@ -187,14 +187,14 @@ def helper_cases(ctx):
         i = rnd.choice([0, life - 1, life - 1, rnd.randint(0, life - 1), rnd.randint(0, life - 1), life])
         cases.append(integrate_case(I, series(n, 1, 90), i, k, round(fl(0.5, 0.99), 3), 'float'))
     # annual_electricity_pumping_power: five distinct series, every end-use option
-    for _ in range(ctx.n(120, 3000)):
+    for _ in range(ctx.n(120, 2000)):
         code = rnd.choice(ENDUSE_CODES)
         life, k = rnd.choice([1, 2, 3, 5, 10]), rnd.choice([1, 2, 4, 12])
         n = life * k + rnd.choice([0, 0, 1])
         cases.append(annual_case(I, code, life, k, round(fl(0.5, 0.99), 3), series(n, 40, 90), series(n, 0.1, 3), series(n, 3, 9),
                                  series(n, 1, 6), series(n, 5, 30) if code != 1 else []))
     # remaining heat content
-    for _ in range(ctx.n(80, 2000)):
+    for _ in range(ctx.n(80, 1000)):
         cases.append(remaining_case(I, round(fl(50, 900), 3), series(rnd.choice([0, 1, 2, 3, 7, 30, 100]), 1e7, 2e9)))
     # electricity_heat_production: every end-use option, error branches
     for _ in range(ctx.n(250, 5000)):
@@ -518,7 +518,7 @@ def gen_runs(ctx):
             opts = dict(addons=False, overpressure=False) if dh else _opts(rnd)
             runs.append((f'cell:eu{eu}:plant{pl}:{rep}:{len(runs)}',
                          _synthetic(rnd, life, tspy, enduse=eu, plant=pl, resmodel=resm, **opts)))
-    for i in range(ctx.n(12, 150)):     # long series, add-ons
+    for i in range(ctx.n(12, 100)):     # long series, add-ons
         eu = rnd.choice(configs.ENDUSES)
         pl = rnd.choice(configs.ELEC_PLANTS if eu != 2 else [5, 6, 9])
         runs.append((f'long:{i}', _synthetic(rnd, rnd.choice([10, 20, 30, 35] + ([] if ctx.quick else [60, 100])),
@@ -531,8 +531,13 @@ def correspondence(ctx, proofs_ok=True):
     t = energy_enums.tables()
     if sorted(t['enduse_codes']) != sorted(ENDUSE_CODES):
         ctx.note(f'end-use options of the source {t["enduse_codes"]} differ from the harness list {ENDUSE_CODES}')
-    run_helpers(ctx, helper_cases(ctx))
-    check_runs(ctx, 'whole-runs', gen_runs(ctx))
+    cases = helper_cases(ctx)    # generated first: the PRNG stream of the whole runs does not depend on the helper verdicts
+    runs = gen_runs(ctx)
+    try:
+        run_helpers(ctx, cases)
+    except Exception as e:       # e.g. a helper was renamed: the whole-run checkers below do not depend on the helpers
+        ctx.violate('corr', f'harness:helpers:{type(e).__name__}', f'direct-call correspondence could not run: {e!r}'[:1500])
+    check_runs(ctx, 'whole-runs', runs)
 
 
 def search(ctx):
